@@ -170,6 +170,9 @@ func (g *declGen) longName(ns *nameSets, prefix string) string {
 		pool = longPoolUni
 	}
 	l := rapid.SampledFrom(pool).Draw(g.t, "long")
+	if pct(g.t, "veryLongName", 3) {
+		l = l + "-" + strings.Repeat("long", rapid.IntRange(14, 30).Draw(g.t, "longNameRep"))
+	}
 	for i := 0; ns.long[prefix+l] || (g.help && prefix+l == "help"); i++ {
 		l = fmt.Sprintf("%s%d", l, i)
 	}
@@ -515,6 +518,9 @@ func (g *declGen) cmd(c *Cmd, depth int) {
 			if i == 0 && root {
 				gr.Desc = "Application Options"
 			}
+			if cfg.EnvNs && pct(t, "topEnvNs", 30) {
+				gr.EnvNamespace = rapid.SampledFrom([]string{"TOP", "T_X"}).Draw(t, "topEnvNsName")
+			}
 			c.G.Groups = append(c.G.Groups, gr)
 		}
 	}
@@ -796,6 +802,13 @@ func (g *argvGen) emitCluster() {
 		s += o.Short
 		g.used = append(g.used, o)
 	}
+	if g.d.Has(flags.HelpFlag) && g.cfg.Help > 0 && pct(t, "helpInCluster", 6) {
+		// the built-in help flag at a random position of the cluster
+		rs := []rune(s[1:])
+		i := rapid.IntRange(0, len(rs)).Draw(t, "helpAt")
+		g.out = append(g.out, "-"+string(rs[:i])+"h"+string(rs[i:]))
+		return
+	}
 	if g.cfg.WUnknown > 0 && pct(t, "clusterUnknownTail", 12) {
 		g.out = append(g.out, s+g.unknownShort()+rapid.SampledFrom([]string{"", "=1", "z"}).Draw(t, "clusterUnkTail"))
 		return
@@ -933,7 +946,16 @@ func (g *argvGen) unknownShort() string {
 
 func (g *argvGen) emitUnknown() {
 	t := g.t
-	switch rapid.IntRange(0, 4).Draw(t, "unkForm") {
+	switch rapid.IntRange(0, 5).Draw(t, "unkForm") {
+	case 5:
+		// unknown letter followed by known flags in one cluster
+		tail := ""
+		for _, o := range g.scopeOpts() {
+			if o.Short != "" && o.Kind.IsFlag() && g.r.sc.short[o.Short] == o && len(tail) < 8 {
+				tail += o.Short
+			}
+		}
+		g.out = append(g.out, "-"+g.unknownShort()+tail)
 	case 0:
 		g.out = append(g.out, "--"+g.unknownLong())
 	case 1:
@@ -1061,6 +1083,21 @@ func genArgv(t *rapid.T, d *Decl, cfg *ArgvCfg) []string {
 			break
 		}
 		g.emitCmd()
+	}
+	if pct(t, "manyOccurrences", 4) {
+		// one multi-valued option given many times
+		var multi []*OptInfo
+		for _, o := range g.scopeOpts() {
+			if o.Kind.IsMulti() || o.Kind == KBoolSlice || o.Kind.IsFunc() {
+				multi = append(multi, o)
+			}
+		}
+		if len(multi) > 0 {
+			o := multi[rapid.IntRange(0, len(multi)-1).Draw(t, "manyOpt")]
+			for i := rapid.IntRange(9, 40).Draw(t, "manyN"); i > 0; i-- {
+				g.emitOpt(o)
+			}
+		}
 	}
 	if pct(t, "trailing", 30) {
 		k := rapid.IntRange(1, 3).Draw(t, "ntrailing")
